@@ -49,4 +49,66 @@ theorem next_work_limit_same (nBits : Nat) (ts : Int) :
 
 theorem bitsMainnetLimit_eq : (CorePow.setCompact 0x1d00ffff).value = bitsMainnetLimit := by decide
 
+/-- clamping to a limit `hi` or to a lower `lo` gives the same compact form whenever every target between the two
+    encodes the same -/
+theorem clamp_limit_same_gen (lo hi : Nat) (c : Nat × Nat) (hle : lo ≤ hi) (hhi : hi < 256 ^ 32)
+    (htop : ∀ y, lo ≤ y → y ≤ hi → compactOf y = c) (x : Nat) (hx : x < 256 ^ 32) :
+    CorePow.getCompact (if x > hi then hi else x) = CorePow.getCompact (if x > lo then lo else x) := by
+  by_cases h1 : x > hi
+  · have h2 : x > lo := by omega
+    simp only [h1, h2, if_true]
+    rw [getCompact_eq _ hhi, getCompact_eq _ (by omega), htop _ hle (Nat.le_refl _), htop _ (Nat.le_refl _) hle]
+  · by_cases h2 : x > lo
+    · simp only [h1, h2, if_true, if_false]
+      rw [getCompact_eq _ hx, getCompact_eq _ (by omega), htop _ (by omega) (by omega), htop _ (Nat.le_refl _) hle]
+    · simp only [h1, h2, if_false]
+
+theorem next_work_limit_same_gen (lo hi : Nat) (c : Nat × Nat) (hle : lo ≤ hi) (hhi : hi < 256 ^ 32)
+    (htop : ∀ y, lo ≤ y → y ≤ hi → compactOf y = c) (nBits : Nat) (ts : Int) :
+    CorePow.calculateNextWorkRequired nBits ts hi = CorePow.calculateNextWorkRequired nBits ts lo := by
+  unfold CorePow.calculateNextWorkRequired
+  simp only []
+  apply clamp_limit_same_gen lo hi c hle hhi htop
+  have hU : CorePow.U256 = 256 ^ 32 := by norm_num [CorePow.U256]
+  refine Nat.lt_of_le_of_lt (Nat.div_le_self _ _) ?_
+  rw [← hU]
+  exact Nat.mod_lt _ (by rw [hU]; positivity)
+
+/-- regtest's `powLimit` as Core holds it (uint256 `7fff…ff`) and as btclib holds it (`target_from_bits(207fffff)`) -/
+def coreRegtestLimit : Nat := 2 ^ 255 - 1
+def bitsRegtestLimit : Nat := 0x7fffff * 2 ^ 232
+
+theorem compactOf_top_regtest (y : Nat) (h1 : bitsRegtestLimit ≤ y) (h2 : y ≤ coreRegtestLimit) :
+    compactOf y = (32, 0x7fffff) := by
+  unfold bitsRegtestLimit at h1
+  unfold coreRegtestLimit at h2
+  norm_num at h1 h2
+  have hb : byteLen y = 32 := byteLen_unique y 32 (by omega) (by norm_num; omega) (by norm_num; omega)
+  rw [compactOf_of y 32 (y / 256 ^ 29) hb (by norm_num)]
+  norm_num
+  have hb2 : y / 6901746346790563787434755862277025452451108972170386555162524223799296 = 8388607 := by omega
+  rw [hb2]
+  norm_num
+
+theorem bitsRegtestLimit_eq : (CorePow.setCompact 0x207fffff).value = bitsRegtestLimit := by decide
+
+/-- signet's (default) `powLimit` is exactly representable: Core's uint256 `00000377ae00…00` IS `target_from_bits(1e0377ae)` -/
+theorem bitsSignetLimit_eq : (CorePow.setCompact 0x1e0377ae).value = 0x377ae * 2 ^ 216 := by decide
+
+/-- the timespan is clamped to `[T/4, 4T]` before anything else: a retarget depends on the measured timespan only
+    through its clamped value (so no single retarget moves the target by more than a factor four either way) -/
+theorem next_work_clamp (nBits : Nat) (ts : Int) (powLimit : Nat) :
+    CorePow.calculateNextWorkRequired nBits ts powLimit =
+      CorePow.calculateNextWorkRequired nBits (max 302400 (min ts 4838400)) powLimit := by
+  have hc : max 302400 (min ts 4838400) = if ts < 302400 then 302400 else if ts > 4838400 then 4838400 else ts := by
+    split_ifs <;> omega
+  rw [hc]
+  unfold CorePow.calculateNextWorkRequired
+  norm_num
+  by_cases h1 : ts < 302400
+  · simp [h1]
+  · by_cases h2 : 4838400 < ts
+    · simp [h1, h2]
+    · simp [h1, h2]
+
 end Btc.Pow
